@@ -5,7 +5,8 @@ import sys
 from .trans import Translator, Untranslatable, module_text
 
 REPO = os.environ.get('VERIF_REPO', '/repo')
-GEN_DIR = os.path.join(os.path.dirname(__file__), '..', '..', 'coq', 'Gen')
+GEN_DIR = os.path.join(os.environ.get('VERIF_COQ') or
+                       os.path.join(os.path.dirname(__file__), '..', '..', 'coq'), 'Gen')
 
 A3x10 = ['eta_x', 'eta_y', 'eta_z', 'zeta']
 KERN = {n: 'A3' for n in ['ex', 'ey', 'ez', 'sx', 'sy', 'sz'] + A3x10}
@@ -38,6 +39,11 @@ JOBS = {
                           wx='T3', wy='T3', wz='T3', sc_dir='Z')),
     ]),
 }
+
+
+def register(jobs):
+    """Property modules may bring their own generation jobs (GEN_JOBS)."""
+    JOBS.update(jobs)
 
 
 def generate(job, repo=REPO, out_dir=GEN_DIR):
